@@ -289,7 +289,12 @@ def check_post_order(chk, m, L, R, CUR, PAR):
                         if o[0] == "sym" and depth_zero_flag(fn, o[1]):
                             root_eq = (cc[1] == "eq") == bool(taken)
             clr = [e for e in p.events if e.kind == "store" and ptr_parts(e.ptr) == (("arg", 0), CUR, ()) and e.val == ("null",)]
-            if root_eq is True or root_eq is None:
+            if root_eq is None and not clr and any(e.kind == "load" and ptr_parts(e.ptr) == (("arg", 0), PAR, ()) for s_, q in ss for e in q.events):
+                # the walk resumes from iter->parent (a position cached from the previous call) instead of starting at the head:
+                # which node is the root on this path is decided from state this rule does not interpret
+                chk.unknown("M3.root-clears-curr", sid, "post_order_iterator reads iter->parent (a walk resumed from the previous call's "
+                            "position): whether the node returned here can be the root is not decided", p.ret_inst.loc)
+            elif root_eq is True or root_eq is None:
                 chk.ob("M3.root-clears-curr", sid, bool(clr),
                        "returning the root clears iter->curr (the iterator must not look at the root again once the caller may have freed "
                        "it)%s" % ("" if root_eq else "; this path returns a node without comparing it with iter->curr"), p.ret_inst.loc, fn.name)
